@@ -35,7 +35,12 @@ HAZARDS = {
 }
 
 
-def build(comments):
+ADS_PARAMETER = "transport=grpc,python-gapic-templates=ads-templates,old-naming"
+ADS_SIGNATURE = "docstring.ads_request_comment_unescaped"
+ADS_SKIP = ("enum_value",)        # the ads enum template documents the enum only, not its values
+
+
+def build(comments, ads=False):
     """comments: {target: text}. A one-service API with every documented kind of element."""
     f = apigen.File("google/example/doc/v1/doc.proto", PKG, deps=apigen.STD_DEPS)
     kind = f.enum("Kind", ["KIND_UNSPECIFIED", "BIG"])
@@ -64,7 +69,7 @@ def build(comments):
             loc.leading_comments = c.get("leading", "")
             loc.trailing_comments = c.get("trailing", "")
             loc.leading_detached_comments.extend(c.get("detached", []))
-    return apigen.request([f], parameter="transport=grpc+rest")
+    return apigen.request([f], parameter=ADS_PARAMETER if ads else "transport=grpc+rest")
 
 
 def expected_text(c):
@@ -148,11 +153,11 @@ def docstrings(files):
     return out
 
 
-def intact(comments, files):
+def intact(comments, files, skip=()):
     """[(target, detail)] where the words of the comment are not a contiguous run of words of the docstring."""
     ds, bad = docstrings(files), []
     for tgt, text in comments.items():
-        if text is None:
+        if text is None or tgt in skip:
             continue
         want = expected_text(text).strip().split()
         alts = [want]
